@@ -27,6 +27,8 @@ CHECKS = {
          TECH + "; scripted peers with adaptive client and exact call-chain oracle"),
  "C20": ("exploration", "The scenario generators of C01 (valid, invalid and unsupported requests), C02 (backend resets, closes, crashes, host removal/replacement), C04 (migrations, fail-overs, redirections) and a connection-limit class are reused; every history ends in quiescence, either with every client closing its connection or with Stop while connections are open. In that final state the statistics of the service scope are read through the public stats package: downstream/upstream cx_active = 0, cx_total = cx_destroy_total, rq_total = rq_success_total + rq_failure_total, every Redis command's total = success + error; gauges are sampled every 32 steps for wrap-around. TCP-service histories are covered by the same oracle inside the C05/C06/C09 worlds.", "4.C20",
          TECH + "; conservation invariants evaluated in quiescent final states"),
+ "C05": ("exploration", "Seeded exploration of 1-6 simultaneous relayed connections (shared 16 KiB buffer pool) with keyed byte streams of 0 to 5x16 KiB+1 bytes (2 MiB in the thorough tier) in both directions, arbitrary chunking and pacing, socket buffers from 1 byte to 256 KiB (back-pressure), delivery fragmentation, and every finishing order (client half-closes first, backend first, both at once, one side closes completely, a direction carrying zero bytes); oracle at every step: what a receiver has read is a prefix of what its sender sent (streams are keyed by connection, so cross-talk is a prefix violation), end-of-stream only after the sender finished and after its last byte; at the end both directions are complete and every half-close was propagated.", "4.C05",
+         TECH + "; byte-stream equality and end-of-stream placement oracles"),
 }
 NA = {
 }
